@@ -89,6 +89,12 @@ impl FunBuilder {
   pub fn capture_count(&self) -> u8 {
     self.capture_count
   }
+
+  /// The max slots computed so far
+  #[cfg(feature = "verif")]
+  pub fn verif_max_slots(&self) -> i32 {
+    self.max_slots
+  }
 }
 
 impl FunBuilder {
@@ -245,6 +251,12 @@ impl Fun {
   #[inline]
   pub fn max_slots(&self) -> usize {
     self.max_slot as usize
+  }
+
+  /// The arity of this function
+  #[cfg(feature = "verif")]
+  pub fn verif_arity(&self) -> Arity {
+    self.arity
   }
 }
 
